@@ -111,22 +111,21 @@ def run_impl(results, ops):
                     outs.append('NoDescription')
                 else:
                     col = cur.description[j]
-                    sl = col[a:b]
-                    idx = list(range(7))[a:b]
-                    outs.append('(' + ' '.join(show_item(col, i, v) for i, v in zip(idx, sl)) + ')')
+                    sl = list(col[a:b])
+                    outs.append('(' + ' '.join(show_item(col, None, v) for v in sl) + ')')
         except Exception as exc:  # noqa: BLE001
             outs.append('EXC:' + type(exc).__name__)
     return ' ; '.join(outs)
 
 
 def show_item(col, i, v):
-    i = i % 7
-    if i == 0:
+    """rendering by value (the position is not trusted: a wrong slice must show)"""
+    if isinstance(v, str):
         return 'S' + proto.q_show(v)
-    if i == 1:
-        # the type code is a hash of the datatype: compare it with the hash of the announced type
-        return 'T:' + proto.tyname(col.datatype) if v == hash(col.datatype) else 'T:?%r' % (v,)
-    return 'None' if v is None else repr(v)
+    if v is None:
+        return 'None'
+    # the type code is a hash of the datatype: compare it with the hash of the announced type
+    return 'T:' + proto.tyname(col.datatype) if v == hash(col.datatype) else 'T:?%r' % (v,)
 
 
 def line_for(results, ops):
@@ -300,9 +299,23 @@ def run(ctx):
         if len(col) != 7 or items != [col[i] for i in range(7)] or tuple(items) != col[:] or not (col == col) \
                 or items[2:] != [None] * 5 or col != beanquery.Column(col.name, col.datatype):
             ctx.record_violation('column-sequence-laws', 'len/iter/slice/eq disagree for %r' % (col,))
+        # extended slices: a description entry slices like the tuple of its items
+        items = tuple(col)
+        for a in [None] + list(range(-8, 9)):
+            for b in [None] + list(range(-8, 9)):
+                for c in (None, 1, 2, 3, -1, -2, -3):
+                    ctx.count('extended-slice')
+                    try:
+                        got = tuple(col[a:b:c])
+                    except Exception as exc:  # noqa: BLE001
+                        got = 'EXC:' + type(exc).__name__
+                    if got != items[a:b:c]:
+                        ctx.record_violation('column-extended-slice', 'description entry [%r:%r:%r] gives %r, its items give %r'
+                                             % (a, b, c, got, items[a:b:c]))
+                        break
     ctx.evaluations += 1
     # random long sequences
-    for case in range(600 if ctx.thorough() else 150):
+    for case in range(20000 if ctx.thorough() else 150):
         sizes = [rng.range(0, 6), rng.range(0, 6)]
         results = mkresults(sizes)
         n = rng.range(1, 30)
